@@ -296,7 +296,7 @@ def run(ctx):
         "truncating re-creation ('w') of a file whose contents other handle objects cache is outside 'insert-only'",
         "buffered I/O is flushed before bytes are compared (A-io)",
     ]
-    ctx.proof(props=["Molli.Props.C02", "Molli.Props.C02Backend"], gen=["UkvLayout"])
+    ctx.proof(props=["Molli.Props.C02", "Molli.Props.C02Backend", "Molli.Props.C02Multi"], gen=["UkvLayout"])
     work = ctx.scratch
     path = work / "seq.ukv"
     lines, impls = [], []
